@@ -886,6 +886,11 @@ func (u *PacketUnderlay) cleanSessions() {
 			}
 		default:
 		}
+		if session.isClient && !session.openSessionRequestSent.Load() {
+			// The application has not written yet, so nothing was sent
+			// and there is nothing to receive. This is not an idle session.
+			return true
+		}
 		if time.Now().UnixMicro()-session.lastRXTime.Load() > idleSessionTimeout.Microseconds() {
 			log.Debugf("Found idle %v", session)
 			if err := u.RemoveSession(session); err != nil {
